@@ -241,7 +241,12 @@ def _key_coverage(prog: Program, col: Collector, refs: Refs, cat: Catalogue):
         applied = [n for n in walk_no_nested(om.node) if isinstance(n, ast.Call) and isinstance(n.func, ast.Attribute) and n.func.attr == "apply_defaults"]
         col.check(bool(applied) and all(a.lineno < kc.lineno for a in applied), f"{om.fq}::apply_defaults before hashing",
                   "defaults are filled in before the key is computed", "defaults are not applied before hashing: the same op with explicit and implicit defaults is two objects", om.loc(kc))
-    # overriding hash_args_kwargs: value derived from both inputs
+    _op_key_overrides(prog, col, refs)
+
+
+def _op_key_overrides(prog: Program, col: Collector, refs: Refs):
+    """every override of hash_args_kwargs (the interning key of a parametrised op) is derived from all of its input, decomposes structured
+    arguments completely (a slice is start, stop, step), is uniquely decodable and is not a hash"""
     for c in prog.classes.values():
         m = c.methods.get("hash_args_kwargs")
         if m is None:
@@ -289,6 +294,7 @@ def _key_coverage(prog: Program, col: Collector, refs: Refs, cat: Catalogue):
         col.check(set(params) <= used and not sliced and bool(rets), f"{m.fq}::covers args and kwargs",
                   "the key is derived from both the positional and the keyword parameters",
                   f"hash_args_kwargs ignores part of its input ({sorted(set(params) - used) or 'sliced'}): differently parametrised ops would be the same object", m.loc())
+
 
 
 def _no_hash_in_key(col: Collector, m: Func):
@@ -826,7 +832,8 @@ def _identity_arguments_unchanged(prog: Program, col: Collector, refs: Refs, cat
             if not ((r or "").split(".")[0] in ("numpy", "torch", "jax") or isinstance(v.func, ast.Attribute)):
                 continue
             n += 1
-            guards = [a for a in m.module.ancestors(st) if isinstance(a, ast.If) and m.module.enclosing_function(a) is m.node]
+            guards = [a for a in m.module.ancestors(st) if isinstance(a, ast.If) and m.module.enclosing_function(a) is m.node
+                      and any(st is y for b_ in a.body for y in ast.walk(b_))]  # the test holds in the body only, not in the else / elif branches
             scalar_only = False
             for g in guards:
                 t = g.test
